@@ -1,5 +1,5 @@
 """Property -> rule composition.  Each function decides the statically decidable clauses of one property."""
-from .rules import kdefects, numeric, seed, typestate, ownership, clifford, circuit, stabilizer, adjoint, manifold, gellmann
+from .rules import kdefects, numeric, seed, typestate, ownership, clifford, circuit, stabilizer, adjoint, manifold, gellmann, twins
 
 M = 'numqi.'
 DECISION_C05 = ['numqi.entangle.ppt.is_ppt', 'numqi.entangle.ppt.is_generalized_ppt',
@@ -33,6 +33,10 @@ def c07(proj, rep, tier):
     rep.floor('H2 table entries', n, 30)
     n = clifford.h3(proj, rep)
     rep.floor('H3 composition-order + scatter obligations', n, 3)
+    n = clifford.h4(proj, rep)
+    rep.floor('H4 recorder factories', n, 2)
+    n = twins.tw(proj, rep, ['numqi.sim.clifford', 'numqi.gate._pauli', 'numqi.group.spf2'])
+    rep.floor('TW twin blocks in the Clifford modules (X-half / Z-half of clifford_array_to_F2)', n, 1)
     ncache, nsites = ownership.o1(proj, rep, focus={'numqi.sim.clifford._basic_clifford_dagger_f2',
                                                     'numqi.gate._pauli.get_pauli_group',
                                                     'numqi.group.spf2._get_number_internal'})
@@ -59,6 +63,8 @@ def c01(proj, rep, tier):
     rep.floor('W3 (class, option, field) configurations with a length test', n3, 25)
     n = kdefects.k3(proj, rep, MANIFOLD)
     n = kdefects.k1(proj, rep, MANIFOLD)
+    n = twins.tw(proj, rep, MANIFOLD)
+    rep.floor('TW twin blocks in the manifold modules (real / complex constructor halves)', n, 3)
     rep.assume('membership itself (unit norm, PSD, X^dagger X = I, simplex, interval) for all theta is value-level: not decided; '
                'known blind spots: ball map formula, Euler-map batch broadcast, float32 conditioning')
 
@@ -110,6 +116,8 @@ def c04(proj, rep, tier):
     rep.floor('A Knill-Laflamme backward obligations', n, 5)
     n = adjoint.d1(proj, rep)
     rep.floor('D1/A1/A3 circuit sweep obligations', n, 17)
+    n = twins.tw(proj, rep, ['numqi.sim.state', 'numqi.sim._torch_utils', 'numqi._torch_op', 'numqi.qec._internal'])
+    rep.floor('TW twin blocks in the backward helpers (grad / conj halves of the op_grad contraction)', n, 2)
     rep.assume('that the accumulated numbers equal the derivative (Sylvester backward of sqrtm, Pade logm, the op_grad einsum) is '
                'value-level: not decided')
 
@@ -180,7 +188,7 @@ def c20(proj, rep, tier):
 
 
 def dev(proj, rep, tier):
-    print(gellmann.g3(proj, rep, ['numqi.matrix_space._misc.get_matrix_orthogonal_basis','numqi.matrix_space._misc.detect_commute_matrix']))
+    print(twins.tw(proj, rep, None))
 
 
 PROPS = {'C01': c01, 'C02': c02, 'C16': c16, 'C03': c03, 'C04': c04, 'C05': c05, 'C07': c07, 'C19': c19, 'C10': c10, 'C11': c11, 'C18': c18, 'C20': c20, 'DEV': dev}
